@@ -68,9 +68,12 @@ def build(tier):
     ue = Unit('expand', 'C01/expand.cpp', ['h_expand'], allow_extern=[r'_ZN11NNEvaluator.*'])
     units.append(ue)
     for k, nm in enumerate(['addMovesByMask', 'addPawnMovesByMask<white>', 'addPawnMovesByMask<black>', 'addPawnDoubleMovesByMask']):
-        obs.append(Ob('O2-expand@%d' % k, ue, 'h_expand', nm + ': an arbitrary destination mask is expanded into exactly the moves it stands for (promotions x4 or x2), appended once each, older entries untouched',
-                      unwind=65, param=k, timeout=1800, backend='kissat', functions=['MoveGen::' + nm, 'MoveList::addMove'],
-                      bounds='any list fill 0..180, any mask with <= 28 (pieces) / <= 8 (pawn direction) bits on the rows the generators can pass, any delta of the direction class'))
+        for j, fill in enumerate((0, 5, 200)):
+            if tier == 'quick' and fill != 5: continue      # quick: one list fill; thorough: empty, short and nearly full lists
+            obs.append(Ob('O2-expand@%d' % (k + 4 * j), ue, 'h_expand', nm + ' on a list already holding %d moves: an arbitrary destination mask is expanded into exactly the moves it stands for (promotions x4 or x2), appended once each, older entries untouched' % fill,
+                          unwind=65, param=k + 4 * j, timeout=1800, mem_gb=12, backend='kissat', functions=['MoveGen::' + nm, 'MoveList::addMove'],
+                          unwind_fn={r'_ZN7MoveGen14addMovesByMaskER8MoveList6Squarem': 30, r'_ZN7MoveGen18addPawnMovesByMaskILb[01]EEEvR8MoveListmib': 10, r'_ZN7MoveGen24addPawnDoubleMovesByMaskER8MoveListmi': 10},   # mask population is bounded by the harness (<= 28 / <= 8)
+                          bounds='list fill %d; any mask with <= 28 (pieces) / <= 8 (pawn direction) bits on the rows the generators can pass, any delta of the direction class' % fill))
     for K in ([3] if tier == 'quick' else [3, 4]):
         defs = {'NMEN': K}
         if K > 3: defs['ALLPRESENT'] = None
